@@ -32,7 +32,10 @@ static vmutex_t  M[VS_MAXM]; static int nM;
 static vcond_t   C[VS_MAXC]; static int nC;
 static int cur = -1, active = 0;
 static vs_config_t cfg;
-static long steps, counters[8];
+static long steps, counters[8]; static int trace;
+/* spin detection: scheduler-visible states seen since the running thread was last switched in */
+#define VS_SPIN 128
+static uint64_t spinset[VS_SPIN]; static int nspin;
 
 static void futex_wait(volatile int* a, int v) { syscall(SYS_futex, a, FUTEX_WAIT, v, NULL, NULL, 0); }
 static void futex_wake(volatile int* a) { syscall(SYS_futex, a, FUTEX_WAKE, 1, NULL, NULL, 0); }
@@ -85,10 +88,22 @@ static void remove_waiter(vcond_t* c, int tid) {
 static void pick_and_switch(int exiting) {
     int E[2 * VS_MAXT], S[2 * VS_MAXT], n = 0, sp, curEnabled = 0;
     vthread_t* me = &T[cur];
+    if (trace) { static const char* N[] = {"none","start","lock","unlock","wait","relock","signal","bcast","create","join","yield","exit"}; fprintf(stderr, "[%ld] t%d %s m%d c%d site=%lx\n", steps, cur, N[me->op], me->m, me->c, (unsigned long)me->site); }
     if (++steps > cfg.horizon) fail("livelock candidate: more than %p visible operations (%d)", (void*)cfg.horizon, 0);
     if (cfg.visited && cfg.statekey) cfg.visited(cfg.statekey() ^ vs_sched_hash());
-    if (!exiting && enabled(me, &sp) && !sp) { E[n] = cur; S[n] = 0; n++; curEnabled = 1; }
+    /* A thread that comes back to a scheduler-visible state it already went through since it was switched in is
+     * busy-waiting (e.g. ZSTD_compressStream2 re-trying POOL_tryAdd until a worker is free).  Waiting must be visible:
+     * such a point is treated as a yield - the other enabled threads come first and staying on the spinner is the
+     * deviation - otherwise the default continuation would spin forever. */
+    int spinning = 0;
+    if (!exiting) {
+        uint64_t h = vs_sched_hash();
+        for (int i = 0; i < nspin; i++) if (spinset[i] == h) { spinning = 1; break; }
+        if (!spinning && nspin < VS_SPIN) spinset[nspin++] = h;
+    }
+    if (!exiting && !spinning && enabled(me, &sp) && !sp) { E[n] = cur; S[n] = 0; n++; curEnabled = 1; }
     for (int i = 0; i < nT; i++) { if (i == cur) continue; if (enabled(&T[i], &sp) && !sp) { E[n] = i; S[n] = 0; n++; } }
+    if (!exiting && spinning && enabled(me, &sp) && !sp) { E[n] = cur; S[n] = 0; n++; if (n > 1) counters[5]++; }
     if (cfg.spurious) for (int i = 0; i < nT; i++) { if (enabled(&T[i], &sp) && sp && !(exiting && i == cur)) { E[n] = i; S[n] = 1; n++; } }
     if (n == 0) {
         int alldone = 1; for (int i = 0; i < nT; i++) if (!T[i].done) alldone = 0;
@@ -105,7 +120,7 @@ static void pick_and_switch(int exiting) {
     int t = E[c];
     if (S[c]) { /* spurious wake-up */ T[t].signalled = 1; if (T[t].c >= 0) remove_waiter(&C[T[t].c], t); T[t].spur = 1; }
     if (t == cur && !exiting) return;
-    counters[4]++;
+    counters[4]++; nspin = 0;
     int prev = cur; cur = t;
     wake(&T[t]);
     if (!exiting) wait_go(&T[prev]);
@@ -245,9 +260,9 @@ void vs_begin(const vs_config_t* c) {
     cfg = *c;
     if (cfg.horizon <= 0) cfg.horizon = 200000;
     memset(T, 0, sizeof T); memset(M, 0, sizeof M); memset(C, 0, sizeof C); memset(counters, 0, sizeof counters);
-    nT = 1; nM = 0; nC = 0; steps = 0;
+    nT = 1; nM = 0; nC = 0; steps = 0; nspin = 0;
     T[0].used = 1; T[0].id = 0; T[0].op = OP_NONE; T[0].c = -1; T[0].m = -1;
-    cur = 0; active = !cfg.passthrough;
+    cur = 0; active = !cfg.passthrough; trace = getenv("VS_TRACE") != NULL;
 }
 void vs_end(void) {
     if (!active) return;
